@@ -713,7 +713,7 @@ def mutate(rng, data, cname) -> Optional[tuple[Any, dict]]:
         elif kind == 'rename':
             if isinstance(parent, MutableMapping):
                 v = parent.pop(key)
-                nk = rng.choice(['zz', key + 'x', 'q:' + key, '@' + key, '$', '$1', '#1', 'xmlns:q'])
+                nk = rng.choice(['zz', key + 'x', ('q:' if ':' not in key else 'q_') + key, '@' + key, '$', '$1', '#1', 'xmlns:q'])
                 parent[nk] = v
                 desc['new'] = nk
             else:
@@ -852,6 +852,10 @@ def compare_model(ctx: Ctx, drv: Driver, u: Unit, cname: str, opts: dict, res: d
             ctx.count('model:skipped(mutation touches xmlns declarations)')
             continue
         for ent in enclog:
+            if ent[0] in ('enc', 'encerr') and cname == 'jsonml' and isinstance(ent[1], MutableSequence) and any(
+                    isinstance(e, MutableSequence) and len(e) and isinstance(e[0], MutableSequence) for e in ent[1]):
+                ctx.count('model:skipped(non-string name)')
+                continue
             if ent[0] == 'enc':
                 _, obj, xe, level, ed, tabs = ent
                 reqs.append(dict(base, op='enc1', mapper=tabs, ty=facts_of(table, xe), name=xe.name, obj=L.canon(obj)))
